@@ -17,3 +17,16 @@ func verifPoint(point, name string, ep *endpointClient) {
 		h(point, name, verifWrapClient(ep))
 	}
 }
+
+// VerifTrHook, when set, is called at the schedule points inside a
+// transport (serve taking a call, after the send, after recording it as
+// pending, before servicing a fetch; the reader before and after its fetch
+// hand-off and before done()) with the point's name and an opaque identity
+// of the transport (compare with VerifClient.Transport). It may block.
+var VerifTrHook func(point string, tr interface{})
+
+func verifPointTr(point string, tr *transport) {
+	if h := VerifTrHook; h != nil {
+		h(point, tr)
+	}
+}
